@@ -4,7 +4,12 @@ package main
 // disagreement replays exactly from (property, seed, case index).
 type RNG struct{ s uint64 }
 
-func NewRNG(seed uint64) *RNG { return &RNG{s: seed*0x9E3779B97F4A7C15 + 0x1234567} }
+// NewRNG mixes the seed through the SplitMix64 finaliser, so that consecutive seeds
+// give unrelated streams (seed k+1 is NOT seed k shifted by one draw).
+func NewRNG(seed uint64) *RNG {
+	t := &RNG{s: seed}
+	return &RNG{s: t.Next() ^ 0xA5A5A5A5DEADBEEF}
+}
 func (r *RNG) Next() uint64 {
 	r.s += 0x9E3779B97F4A7C15
 	z := r.s
